@@ -129,6 +129,13 @@ class Scenario:
         self.cfg["listeners"].append({"name": name, "type": "reverse", "bind": "0.0.0.0:%d" % p, "target": target, "protocol": protocol})
         return {"kind": "reverse", "name": name, "addr": "%s:%d" % (PROXY4, p), "port": p, "tls": False, "target": target, "protocol": protocol}
 
+    def add_tproxy_listener(self, name="tp"):
+        """TPROXY listener (TCP): clients address their destination directly; the simulated netfilter rule diverts the
+        connection to this listener, which learns the destination from SO_ORIGINAL_DST (nix facade)."""
+        p = self.port()
+        self.cfg["listeners"].append({"name": name, "type": "tproxy", "bind": "[::]:%d" % p, "protocol": "tcp"})
+        return {"kind": "tproxy", "name": name, "addr": "%s:%d" % (PROXY4, p), "addr6": "[%s]:%d" % (PROXY6, p), "port": p, "tls": False}
+
     def add_quic_listener(self, name="quic", client_policy=None):
         p = self.port()
         self.cfg["listeners"].append({"name": name, "type": "quic", "bind": "0.0.0.0:%d" % p, "tls": self.tls_server(client_policy)})
@@ -264,6 +271,10 @@ class Scenario:
             return ops, "socks5"
         if k == "reverse":
             return ([send(early)] if early else []), "reverse"
+        if k == "tproxy":
+            # no handshake: the destination is the address the client connects to (add_client picks it up)
+            linfo["_dst"] = (host, port)
+            return ([send(early)] if early else []), "reverse"
         raise ValueError(k)
 
     def client_tls(self, linfo, cert=None):
@@ -286,6 +297,13 @@ class Scenario:
             if v6:
                 dst = "[%s]:%d" % (PROXY6, linfo["port"])
             a = {"kind": "tcp_client", "id": cid, "src": src, "dst": dst, "start_ms": start_ms, "ops": ops, "background": background}
+            if linfo["kind"] == "tproxy":
+                host, port = linfo["_dst"]
+                is6 = ":" in host
+                if is6 and not v6:
+                    a["src"] = self.client_ip(True)
+                a["dst"] = ("[%s]:%d" if is6 else "%s:%d") % (host, port)
+                a["via"] = linfo["addr6"] if is6 else linfo["addr"]
             t = self.client_tls(linfo, tls_cert)
             if t:
                 a["tls"] = t
